@@ -48,6 +48,7 @@ REQUIRED = {
     "special_fields_checked": 60,
     "commutation_checked": 5,
     "cylinder_conversions": 20,
+    "backend_product_routes_checked": 200,
 }
 EPS = 2.220446049250313e-16
 
@@ -254,6 +255,34 @@ def run_order_shard(spec, res: ShardResult, rng):
                         res.violation(f"tensor access by names [{names[i]!r},{names[j]!r}] does not return entry [{i},{j}]", case0)
                 except Exception as exc:
                     res.violation(f"tensor access by names raised {type(exc).__name__}: {exc}", case0)
+        # ---- the same products through the backends' operators and through expressions ----
+        if True:
+            from pde.tools.expressions import evaluate
+
+            want_outer = np.einsum("i...,j...->ij...", v.data, w.data)
+            want_Tw = np.einsum("ij...,j...->i...", want_outer, w.data)
+            want_wT = np.einsum("i...,ij...->j...", w.data, want_outer)
+            T = pde.Tensor2Field(grid, want_outer)
+            for backend in ("numpy", "numba") if gi < 2 else ("numpy",):  # compilation is slow: two grids per shard
+                try:
+                    op = v.make_outer_prod_operator(backend)
+                    checks = [("outer operator", op(v.data, w.data), want_outer), ("outer operator (out=)", op(v.data, w.data, np.empty_like(want_outer)), want_outer)]
+                    with_expressions = backend == "numpy" or gi == 0
+                    if with_expressions:
+                        checks.append(("evaluate('outer(a, b)')", evaluate("outer(a, b)", {"a": v, "b": w}, backend=backend).data, want_outer))
+                    checks.append(("dot operator (vector, vector)", v.make_dot_operator(backend, conjugate=False)(v.data, w.data), (v.data * w.data).sum(axis=0)))
+                    checks.append(("dot operator (tensor, vector)", T.make_dot_operator(backend, conjugate=False)(T.data, w.data), want_Tw))
+                    checks.append(("dot operator (vector, tensor)", w.make_dot_operator(backend, conjugate=False)(w.data, T.data), want_wT))
+                    if with_expressions:
+                        checks.append(("evaluate('dot(T, b)')", evaluate("dot(T, b)", {"T": T, "b": w}, backend=backend).data, want_Tw))
+                        checks.append(("evaluate('dot(b, T)')", evaluate("dot(b, T)", {"T": T, "b": w}, backend=backend).data, want_wT))
+                    for name, have, want_ in checks:
+                        res.count("backend_product_routes_checked")
+                        if np.shape(have) != np.shape(want_) or not np.allclose(have, want_, rtol=1e-13, atol=0):
+                            res.violation(f"{name} [{backend}] does not combine components index by index ((a (x) b)[i,j] = a[i] b[j], contraction over adjacent indices)",
+                                          {**case0, "backend": backend})
+                except Exception as exc:
+                    res.violation(f"product operators on backend {backend} raised {type(exc).__name__}: {str(exc)[:200]}", {**case0, "backend": backend})
         res.case((cls, hole, "named", tuple(gen.grid_shape(gspec))), nontrivial=True)
 
         # ---- conversion to a Cartesian grid ------------------------------------------------
